@@ -33,7 +33,7 @@ Proof. exact rescope_finds. Qed.
 Print Assumptions C12_rescope_finds.
 
 (* D3: remapping a key inside a condition changes only the key  <->  both replace_key implementations keep the
-   other fields.  The two booleans are read off the working tree (Generated/CondTables.v). *)
+   other fields.  The two booleans are read off the working tree (Generated/CondTables.v): both true since the F2 fix. *)
 Theorem C12_condition_remap_iff : forall kK kM,
   (forall f c, cond_payload (cond_apply kK kM f c) = cond_payload c) <-> (kK = true /\ kM = true).
 Proof. exact condition_remap_iff. Qed.
@@ -46,12 +46,27 @@ Theorem C12_condition_remap_faithful : forall f c,
 Proof. exact condition_remap_faithful. Qed.
 Print Assumptions C12_condition_remap_faithful.
 
-(* the witness (a & 2) == 2 under the identity remapping, for a tree whose BitMaskKeyCondition.replace_key drops fields *)
-Theorem C12_condition_remap_refuted : forall kK,
+(* D3, live: on the working tree (both booleans regenerated from /repo on every run) remapping a key inside a condition
+   changes only the key.  The proof term needs both regenerated flags to be `true`: if replace_key drops fields again
+   this theorem stops compiling and the check reports the broken obligation. *)
+Theorem C12_condition_remap_faithful_on_tree : forall f c,
+  cond_payload (cond_apply keycond_replace_keeps maskcond_replace_keeps f c) = cond_payload c.
+Proof. exact (proj2 (condition_remap_iff keycond_replace_keeps maskcond_replace_keeps) (conj eq_refl eq_refl)). Qed.
+Print Assumptions C12_condition_remap_faithful_on_tree.
+
+Theorem C12_condition_rescope_faithful : forall path b c,
+  cond_payload (cond_rescope true true path b c) = cond_payload c /\
+  cond_eid (cond_rescope true true path b c) = cond_eid c.
+Proof. exact condition_rescope_faithful. Qed.
+Print Assumptions C12_condition_rescope_faithful.
+
+(* sensitivity (supporting): a replace_key that rebuilds a BitMaskKeyCondition from the key alone (the behaviour repaired
+   by the F2 fix) does change what the condition tests: (a & 2) == 2 under the identity remapping, at record value 1 *)
+Theorem C12_condition_remap_sensitive : forall kK,
   cond_payload (cond_apply kK false (fun k => k) remap_witness) <> cond_payload remap_witness /\
   cond_test (cond_apply kK false (fun k => k) remap_witness) 1 <> cond_test remap_witness 1.
 Proof. exact condition_remap_refuted_mask. Qed.
-Print Assumptions C12_condition_remap_refuted.
+Print Assumptions C12_condition_remap_sensitive.
 
 (* D1: rescoping never captures a key bound later: a prefix of a circuit is rescoped independently of what follows,
    and what follows sees the extern keys plus exactly the keys measured before it *)
